@@ -2347,6 +2347,15 @@ def m_opt_eq(E, st, fid, t, args, dest_ty):
     return out
 
 
+@model(['core::mem::needs_drop'],
+       'whether T has drop glue: a fixed but unknown boolean per type; remembered by type, so that a path on which the '
+       'PAIR type of the containers needs no drop may leave live elements behind (destroying them is a no-op)')
+def m_needs_drop(E, st, fid, t, args, dest_ty):
+    rargs = t['callee'].get('rargs') or t['callee'].get('args') or []
+    ty = E.subst_ty(rargs[0], E.gs_of(st, fid)) if rargs else None
+    return ret(st, ('boolu', ('needs_drop', freeze(ty) if ty is not None else None)))
+
+
 @model(['core::tuple::<impl core::cmp::PartialEq for (U, T)>::eq'],
        'structural == of two pairs of plain data (size hints); anything else: the generic treatment')
 def m_tuple_eq(E, st, fid, t, args, dest_ty):
